@@ -83,9 +83,13 @@ Required(s) == IF Len(s) = 0 THEN 0 ELSE SumW(s, 1) + (Len(s) - 1) * O.ns
 HasWidth == O.hasMin = 1 /\ O.hasMax = 1 /\ O.maxPos - O.minPos > 0
 LW == O.maxPos - O.minPos
 UsedLayers == Cardinality({k \in 1..K : NonEmpty(k)})
+\* "labels that fit the density budget": required width <= density * layer width.  With a dyadic density the product is exact
+\* in the code's floats, so equality is decided; otherwise only the strict case is (a tie admits both outcomes)
+DyadicDensity == O.densD \in {1, 2, 4, 8}
 C04_SingleLayer ==
     /\ (O.alg = "none" \/ ~HasWidth) => UsedLayers = 1
     /\ (HasWidth /\ Required(T.labels) * O.densD < O.densN * LW) => UsedLayers = 1
+    /\ (HasWidth /\ DyadicDensity /\ Required(T.labels) * O.densD = O.densN * LW) => UsedLayers = 1
 C04_Capacity ==
     (O.alg = "overlap" /\ HasWidth /\ NLabels >= 3 /\ Required(T.labels) * O.densD > O.densN * LW) =>
         \A k \in 1..K : Cardinality(LabelsIn(k)) <= 2 \/ Required(Layers[k]) * O.densD <= O.densN * LW
